@@ -1559,7 +1559,14 @@ func matchExactRegex(v string) ([]string, bool) {
 		// The regex /^$/
 		return nil, true
 	}
-	return matchRegex(re)
+
+	vals, ok := matchRegex(re)
+	if !ok || len(vals) == 0 {
+		// An expression that matches no string at all (an empty character
+		// class) is not the same as /^$/, which matches the empty string.
+		return nil, false
+	}
+	return vals, true
 }
 
 // matchRegex will match a regular expression to literals if possible.
